@@ -114,6 +114,15 @@ func (txProc *baseTxProcessor) checkTxValues(
 	acntSnd, acntDst state.UserAccountHandler,
 	isUserTxOfRelayed bool,
 ) error {
+	if !check.IfNil(acntSnd) {
+		if acntSnd.GetNonce() < tx.Nonce {
+			return process.ErrHigherNonceInTransaction
+		}
+		if acntSnd.GetNonce() > tx.Nonce {
+			return process.ErrLowerNonceInTransaction
+		}
+	}
+
 	err := txProc.checkUserNames(tx, acntSnd, acntDst)
 	if err != nil {
 		return err
@@ -121,13 +130,6 @@ func (txProc *baseTxProcessor) checkTxValues(
 
 	if check.IfNil(acntSnd) {
 		return nil
-	}
-
-	if acntSnd.GetNonce() < tx.Nonce {
-		return process.ErrHigherNonceInTransaction
-	}
-	if acntSnd.GetNonce() > tx.Nonce {
-		return process.ErrLowerNonceInTransaction
 	}
 
 	err = txProc.economicsFee.CheckValidityTxValues(tx)
